@@ -267,6 +267,25 @@ func corpus() []*History {
 		opCtx("start", 1005, 111),
 		opEB(5*sec), opEB(5*sec))
 
+	// W23 (seed C05-1): a provider keeps its owner for life, also after the deposit of one of its bindings was
+	// refunded: another account that binds the provider afterwards is refused, and only the first owner withdraws.
+	add("W23-provider-owner-for-life", 0, append(rich(101, 102), [2]int64{111, 1000}),
+		opDefine(1, 101),
+		opDefine(2, 101),
+		opBind(1, 126, 101, base(6000), price("10"), 1),
+		opBind(2, 126, 101, base(6000), price("10"), 1),
+		Op{Kind: "disable", Svc: 1, Prov: 126, Owner: 101},
+		opEB(10*sec),
+		Op{Kind: "refunddep", Svc: 1, Prov: 126, Owner: 101},
+		opDefine(3, 102),
+		opBind(3, 126, 102, base(6000), price("10"), 1),
+		opCall(1023, 2, []int64{126}, 111, 1000, 2, false, 0, 0),
+		opEB(5*sec),
+		opRespond(1023, 1, 11, 0, 126, 200, 1, true),
+		opWithdraw(102, 126),
+		opWithdraw(101, 126),
+		opEB(5*sec), opEB(5*sec))
+
 	// W22 (seed C12-7): every provider answers early, so the batch is complete while its expiry is still
 	// pending; the consumer pauses and starts again inside that window. The start must not queue a batch:
 	// the next one starts at the old expiry, and no batch is ever completed before its own expiry unanswered.
